@@ -514,6 +514,11 @@ def outcome(f, *a):
         return ('raised', type(e).__name__)
 
 
+def table_shape(m):
+    """the keys of the events table and of every event's per-source dict, with the number of transitions"""
+    return [(e, [(src, len(lst)) for src, lst in ev.transitions.items()]) for e, ev in m.events.items()]
+
+
 def case_events(case):
     """event names the history itself uses in add_transition / remove_transition"""
     return set(op[1] for op in case['ops'] if op[0] in ('trans', 'remove'))
@@ -648,6 +653,7 @@ class Oracle(object):
                             self.bad('to-helper-does-not-end-in-its-state', model=i, helper=n, source=src, result=r, ends_in=end)
                 setattr(twin, attr, cur)
         # -- get_triggers(state) == events that really have a transition from it (fired on the twin)
+        before = table_shape(m)
         probe = twin_objs[0]
         keep = getattr(probe, attr)
         fires_from = {}
@@ -664,6 +670,11 @@ class Oracle(object):
             fires_from[s] = set(fires)
             if sorted(set(listed)) != sorted(fires) or len(listed) != len(set(listed)):
                 self.bad('get_triggers-not-exact', state=s, listed=sorted(listed), fire=sorted(fires), last_op=last_op)
+            # every listed event owns a transition object leaving `s` (a blocked transition and an event without any
+            # transition from `s` both answer False when fired with ignore_invalid_triggers; here they differ)
+            ghosts = [e for e in listed if not any(t.source == s for lst in m.events[e].transitions.values() for t in lst)]
+            if ghosts:
+                self.bad('get_triggers-lists-event-without-transition', state=s, events=ghosts, last_op=last_op)
         setattr(probe, attr, keep)
         # -- get_transitions(trigger, source, dest) == exactly the matching transition objects ----
         table = []
@@ -687,44 +698,25 @@ class Oracle(object):
             for e in list(m.events):
                 if (e in fires_from[s]) != bool(m.get_transitions(e, run.st(s))):
                     self.bad('get_transitions-vs-firing', event=e, state=s, fires=e in fires_from[s])
+        # -- the queries are pure: get_triggers / get_transitions leave the machine's tables as they were
+        after = table_shape(m)
+        if after != before:
+            self.bad('query-changed-the-machine', before=before, after=after, last_op=last_op)
 
 
 # ---------------------------------------------------------------------------------------------
 # one case: run, judge, compare
 # ---------------------------------------------------------------------------------------------
 
-REMOVE_SIG = 'C11.flat.remove_transition.delattr-of-a-name-the-machine-did-not-bind'
-REMOVE_CLAUSES = ('user-attribute-not-preserved', 'helper-missing', 'introspection-raised')
-
-
-def own_binding(run, i, e):
-    v = vars(run.objs[i]).get(e)
-    return machine_bound(v, ('trigger',)) and getattr(v.func, '__self__', None) is run.machine.events.get(e)
-
-
-def will_hit_remove_finding(run, op):
-    """structural condition of finding F-C11-remove-transition-delattr: remove_transition leaves the event
-    without transitions while some registered model does not carry the machine's own binding under that name"""
-    if op[0] != 'remove' or op[1] not in run.machine.events:
-        return False
-    _k, e, src, dst = op
-    left = [t for lst in run.machine.events[e].transitions.values() for t in lst
-            if (src is not None and t.source != src) or (dst is not None and t.dest != dst)]
-    if left:
-        return False
-    return any(not own_binding(run, i, e) for i in run.registered)
-
-
 def run_case(case, lean_answer):
     """returns (failures [(kind, what, details, signature)], facts for statistics)"""
     run = FlatRun(case)
     fails = []
-    facts = {'steps': 0, 'fired': 0, 'errors': 0, 'known_remove': 0, 'helpers_called': 0}
+    facts = {'steps': 0, 'fired': 0, 'errors': 0, 'helpers_called': 0}
     lean = parse_answer(lean_answer, len(case['ops']))
     run.enc_request()      # assigns the user ids the answer refers to
     n_ops = len(case['ops'])
     for k, op in enumerate(case['ops']):
-        hit = will_hit_remove_finding(run, op)
         had = op[0] == 'remove' and op[1] in run.machine.events
         err, res = run.do(op)
         if had and case['override'] and op[1] not in run.machine.events:
@@ -757,10 +749,8 @@ def run_case(case, lean_answer):
             import traceback
             orc.bad('introspection-raised', error=type(e).__name__, where=traceback.format_exc()[-600:])
         if orc.problems:
-            facts['known_remove'] += int(hit)
             for clause, details in orc.problems[:3]:
-                sig = REMOVE_SIG if hit and clause in REMOVE_CLAUSES else 'C11.flat.' + clause
-                fails.append(('monitor', clause, dict(details, step=k), sig))
+                fails.append(('monitor', clause, dict(details, step=k), 'C11.flat.' + clause))
             break
         if corr:
             break
